@@ -266,6 +266,8 @@ def specialise_factories(tree):
             ast.fix_missing_locations(v)
             if isinstance(v, ast.Call) and ast.unparse(v.func) in ("struct.Struct", "Struct") and len(v.args) == 1 and isinstance(v.args[0], ast.Constant) and isinstance(v.args[0].value, str):
                 structs[b_.targets[0].id] = v.args[0].value
+            elif isinstance(v, ast.Attribute) and v.attr == "size" and isinstance(v.value, ast.Name) and v.value.id in structs:
+                env[b_.targets[0].id] = repr(_struct.calcsize(structs[v.value.id]))
             elif isinstance(v, ast.Constant) or (isinstance(v, (ast.BinOp, ast.UnaryOp, ast.Tuple)) and all(isinstance(x, (ast.Constant, ast.BinOp, ast.UnaryOp, ast.Tuple, ast.operator,
                                                                                                               ast.unaryop, ast.expr_context)) for x in ast.walk(v))):
                 env[b_.targets[0].id] = ast.unparse(v)
@@ -298,6 +300,20 @@ def specialise_factories(tree):
                 gp = getattr(par, "_parent", None)
                 _replace_child(gp, par, rep)
                 rep._parent = gp
+        new = ast.parse(ast.unparse(new)).body[0]
+        # `v, = struct.unpack(<format of one value>, d)` is `v = struct.unpack(<format>, d)[0]`: the tuple has exactly one element
+        for x in new.body:
+            if isinstance(x, ast.Assign) and len(x.targets) == 1 and isinstance(x.targets[0], (ast.Tuple, ast.List)) and len(x.targets[0].elts) == 1 \
+                    and isinstance(x.targets[0].elts[0], ast.Name) and isinstance(x.value, ast.Call) and ast.unparse(x.value.func) == "struct.unpack" \
+                    and x.value.args and isinstance(x.value.args[0], ast.Constant) and isinstance(x.value.args[0].value, str):
+                try:
+                    count = len(_struct.unpack(x.value.args[0].value, bytes(_struct.calcsize(x.value.args[0].value))))
+                except _struct.error:
+                    continue
+                if count == 1:
+                    x.targets[0] = x.targets[0].elts[0]
+                    x.value = ast.Subscript(value=x.value, slice=ast.Constant(value=0), ctx=ast.Load())
+        ast.fix_missing_locations(new)
         new = ast.parse(ast.unparse(new)).body[0]
         # a single-use temporary in front of the return
         if len(new.body) == 2 and isinstance(new.body[0], ast.Assign) and len(new.body[0].targets) == 1 and isinstance(new.body[0].targets[0], ast.Name) and isinstance(new.body[1], ast.Return):
